@@ -367,7 +367,86 @@ func c16CliEval(tier string, i int) CaseResult {
 	return cr
 }
 
+// c16During: operations issued from another goroutine while the handshake is still in flight
+// (the server withholds its answer to initialize) are "before a successful handshake": they fail
+// with a not-initialized error and nothing but the handshake reaches the server.
+func c16During(tier string, i int) CaseResult {
+	mode := []string{"sj", "ss", "ls", "io"}[i]
+	cr := CaseResult{Desc: "client=" + mode + ": operations while Initialize is in flight", Nontrivial: true}
+	var viol []explore.Violation
+	obs := &hx.Log{}
+	k := func(s string) string { return s + ":" + mode }
+	res := vsched.Run(vsched.Config{}, func() {
+		ss := newScriptedServer(mode)
+		gate := &hx.Flag{}
+		ss.gateInit = gate
+		cl, err := ss.client()
+		if err != nil {
+			viol = append(viol, V("setup-handshake-fails", "setting the scenario up with well-behaved peers fails: %v", err))
+			return
+		}
+		var ierr error
+		idone := &hx.Flag{}
+		vsched.Go("init", func() { _, ierr = cl.Initialize(context.Background(), &mcp.InitializeRequest{}); idone.Set() })
+		vsched.Quiesce()
+		if idone.Get() {
+			viol = append(viol, V(k("init-returned-early"), "Initialize returned (%v) although the server has not answered", ierr))
+			return
+		}
+		ops := map[string]func() error{
+			"ListTools":     func() error { _, e := cl.ListTools(context.Background(), &mcp.ListToolsRequest{}); return e },
+			"ListPrompts":   func() error { _, e := cl.ListPrompts(context.Background(), &mcp.ListPromptsRequest{}); return e },
+			"ListResources": func() error { _, e := cl.ListResources(context.Background(), &mcp.ListResourcesRequest{}); return e },
+			"CallTool": func() error {
+				rq := &mcp.CallToolRequest{}
+				rq.Params.Name = "t"
+				_, e := cl.CallTool(context.Background(), rq)
+				return e
+			},
+		}
+		for _, name := range []string{"ListTools", "CallTool", "ListPrompts", "ListResources"} {
+			name := name
+			var e error
+			d := &hx.Flag{}
+			vsched.Go("op-"+name, func() { e = ops[name](); d.Set() })
+			vsched.Quiesce()
+			switch {
+			case !d.Get():
+				viol = append(viol, V(k("op-during-handshake-waits"), "%s issued during the handshake neither failed nor returned (it was sent or queued); blocked: %v", name, vsched.LiveThreads()))
+			case e == nil:
+				viol = append(viol, V(k("op-during-handshake"), "%s issued while Initialize is still in flight succeeded", name))
+			case !strings.Contains(strings.ToLower(e.Error()), "not initialized"):
+				viol = append(viol, V(k("op-during-handshake-error"), "%s issued during the handshake failed with %q, not with a not-initialized error", name, e))
+			}
+			if st := cl.GetState(); st == mcp.StateInitialized {
+				viol = append(viol, V(k("state-during-handshake"), "GetState() reports %s while the handshake is in flight", st))
+			}
+		}
+		for _, m := range ss.received {
+			if !strings.Contains(m, `"initialize"`) {
+				viol = append(viol, V(k("traffic-during-handshake"), "the server received %s before the handshake completed", truncate(m, 120)))
+				break
+			}
+		}
+		gate.Set()
+		vsched.Quiesce()
+		if !idone.Get() || ierr != nil {
+			viol = append(viol, V(k("init-fails"), "Initialize after the server answered: done=%v err=%v", idone.Get(), ierr))
+		}
+		obs.Add("received=%d", len(ss.received))
+		cl.Close()
+		ss.stop()
+	})
+	o := finishOutcome(res, obs, viol, true)
+	cr.ObsKey = cr.Desc + o.ObsKey
+	cr.Violations = o.Violations
+	cr.Broken = o.Broken
+	return cr
+}
+
 func init() {
+	RegisterEnum(&Enum{Name: "c16/during-handshake", Doc: "operations issued from another goroutine while Initialize waits for the server's answer, on the 4 client flavours: not-initialized error, no traffic, state not initialized",
+		Count: func(string) int { return 4 }, Eval: c16During})
 	RegisterEnum(&Enum{Name: "c16/server", Doc: "initialize with every version-string class x registered capability kinds x registration between two initializes x six server kinds/modes",
 		Count: func(tier string) int { return len(c16SrvCases(tier)) }, Eval: c16SrvEval})
 	RegisterEnum(&Enum{Name: "c16/client", Doc: "all client call histories up to depth 3 (4 thorough) over {Initialize(ok / transport error / JSON-RPC error / malformed result / initialized refused), 7 operations, Close} on the Streamable, legacy SSE and stdio clients against a recording scripted server; reference state machine",
@@ -378,6 +457,7 @@ func init() {
 		c.Assume = append(c.Assume, "every history is a model trace validated against the implementation (the model is the oracle)", "whether Initialize may succeed again after Close is not prescribed; the model follows the implementation there")
 		c.Enumerate("c16/server")
 		c.Enumerate("c16/client")
+		c.Enumerate("c16/during-handshake")
 	})
 	_ = hx.Nop{}
 }
